@@ -331,11 +331,11 @@ def _generate_qpd_weights(
     # `_samples_multiplier` will typically be 1, but we set it higher in
     # testing to collect additional statistics, faster.
     samples_needed = math.ceil(weight_to_sample) * _samples_multiplier
-    # At the time of writing, the below assert should never fail.  But if
-    # future code changes result in inputs where it _may_ fail, then the only
-    # thing that should be needed if this is reached is to return `retval` in
-    # this case, since presumably it must contain all weights as exact weights.
-    assert samples_needed >= 1
+    # If everything that is left to sample carries negligible weight (all
+    # remaining conditional probabilities were below the cutoff), then
+    # `retval` already contains every relevant weight as an exact weight.
+    if samples_needed < 1:
+        return retval
     single_sample_weight = weight_to_sample / samples_needed
 
     # Figure out if we've reached the special case where everything except
